@@ -304,15 +304,16 @@ Proof. intros Hb Hl Hk []. constructor; rewrite ?Hb, ?Hl, ?Hk; auto. Qed.
 Lemma TJ_quiet {A} sc n X fs (m : C A) :
   quietJ sc m -> (sc = true \/ nodef fs = true) -> TJ n X fs m (fun _ => fs) (fun _ => X) n.
 Proof.
-  intros Hq Hsc s G a s' [Hc Ho] Hf Hj H. destruct (Hq _ _ _ H) as ((A1 & A2 & A3 & A4) & A5 & A6 & A7).
+  intros Hq Hsc s G a s' [Hc [Ho Hu]] Hf Hj H. destruct (Hq _ _ _ H) as ((A1 & A2 & A3 & A4) & A5 & A6 & A7).
   exists G.
   assert (Hle : le s G s' G).
   { split; [|split; [|split]]; auto using ext_refl.
     - split. exists []. rewrite app_nil_r; auto. rewrite A3; auto.
     - rewrite A5. apply F2ofix_refl. }
   split; [|split; [|split]]; auto.
-  - split; [|rewrite A5; auto]. destruct Hc.
-    constructor; [congruence | rewrite A2, A3; auto | rewrite A2; auto | rewrite A4; auto].
+  - split; [|split; [rewrite A5; auto|]].
+    + destruct Hc. constructor; [congruence | rewrite A2, A3; auto | rewrite A2; auto | rewrite A4; auto].
+    + eapply uchain_same; [|exact Hu]. simpl. rewrite A3, A5. reflexivity.
   - eapply holds_le; eauto. destruct Hsc as [->|?]; auto.
   - eapply jinv_same; eauto.
 Qed.
@@ -1275,11 +1276,12 @@ Proof.
     destruct (resolve_upvalue_in x (s_cur s) (s_outer s)) as [i c' o'| |] eqn:E.
     + unfold cbind, cret in H. inversion H; subst; clear H.
       destruct (resolve_upvalue_rel _ _ _ _ _ _ E) as (A1 & A2 & A3).
-      destruct Hs as [Hc Ho].
+      destruct Hs as [Hc [Ho Hu]].
       assert (Hle : le s G (mkS c' o' (s_classes s) (s_line s)) G).
       { split; [|split; [|split]]; simpl; auto using ext_refl. apply ofix_cgrow; auto. }
       exists G. split; [|split; [|split]]; auto.
-      * split; simpl. eapply cinv_ofix; eauto. eapply F2cinv_ofix; eauto.
+      * split; [|split]; simpl. eapply cinv_ofix; eauto. eapply F2cinv_ofix; eauto.
+        eapply resolve_upvalue_chain; eauto.
       * constructor. simpl. right; left. auto.
         eapply holds_le; eauto. left. simpl. apply A1.
       * cbn [s_cur]. destruct A1 as (_ & Hk & Hb & _ & Hl & _).
@@ -1504,14 +1506,15 @@ Qed.
 Lemma TJ_in_function {A} n X fs k name body l (K : func * list (N * bool) -> C A) R X2 n2 (Pu : list (N * bool) -> Prop) :
   TJ 0 [] [] body (fun _ => []) (fun _ => []) 0 ->
   (forall s a s', k_upvalues (s_cur s) = [] -> (body ;;; emit_return l) s = COk (a, s') -> Pu (k_upvalues (s_cur s'))) ->
-  (forall fu, TJ n X (FPure (fu_good fu /\ jgood_func (fst fu) /\ Pu (snd fu)) :: fs) (K fu) R X2 n2) ->
+  (forall fu, TJ n X (FPure (fu_good fu /\ jgood_func (fst fu) /\ Pu (snd fu)) :: FDesc (snd fu) :: fs) (K fu) R X2 n2) ->
   TJ n X fs (in_function k name body l K) R X2 n2.
 Proof.
-  intros Hb Hpu HK s G a s' Hs Hf Hj H. destruct Hs as [Hc Ho]. unfold in_function in H.
+  intros Hb Hpu HK s G a s' Hs Hf Hj H. destruct Hs as [Hc [Ho Hu]]. unfold in_function in H.
   unfold cbind at 1 in H. unfold new_compiler at 1 in H.
   set (s1 := mkS (new_comp k name) (s_cur s :: s_outer s) (s_classes s) (s_line s)) in *.
   set (G1 := ([], fst G :: snd G) : GS).
-  assert (Hs1 : sinv s1 G1). { split; simpl. constructor; simpl; auto. constructor; auto. }
+  assert (Hs1 : sinv s1 G1).
+  { split; [|split]; simpl. constructor; simpl; auto. constructor; auto. split; auto. constructor. }
   unfold cbind at 1 in H. destruct (body s1) as [[[] s2]|] eqn:E2; [|discriminate].
   destruct (Hb _ _ _ _ Hs1 (Forall_nil _) (jinv_new k name) E2) as (G2 & Hs2 & Hle2 & _ & Hj2).
   unfold cbind at 1 in H. unfold finalise_compiler in H. unfold cbind at 1 in H.
@@ -1523,13 +1526,14 @@ Proof.
   destruct (pushes_ok [] l ris s2 G2 0 [] Hs2 (Forall_nil _) Hpl (Hjfr _ (j_jf _ _ _ _ _ Hj2)) Hj2) as (Hs3 & Hle3 & _ & Hj3).
   remember (pushes s2 ris l) as s3 eqn:Es3. clear Es3.
   pose proof (le_trans _ _ _ _ _ _ Hle2 Hle3) as Hle. destruct Hle as (_ & _ & Hof & Hsnd).
-  cbn [fst snd] in Hof, Hsnd, Hj3. destruct Hs3 as [Hc3 Ho3]. cbn [fst snd] in Hc3, Ho3. rewrite Hsnd in Ho3.
+  cbn [fst snd] in Hof, Hsnd, Hj3. destruct Hs3 as [Hc3 [Ho3 Hu3]]. cbn [fst snd] in Hc3, Ho3. rewrite Hsnd in Ho3.
   destruct (s_outer s3) as [|e3 o3]; [inversion Hof|].
   inversion Hof as [|x1 x2 x3 x4 Hxe Hoo]; subst.
   inversion Ho3 as [|y1 y2 y3 y4 Hce Hco]; subst.
+  destruct Hu3 as [Hu3a Hu3b].
   set (fu := (func_of_comp (s_cur s3), k_upvalues (s_cur s3))) in *.
   set (s4 := mkS e3 o3 (s_classes s3) (s_line s3)) in *.
-  assert (Hs4 : sinv s4 G) by (split; auto).
+  assert (Hs4 : sinv s4 G) by (split; [|split]; auto).
   assert (Hle4 : le s G s4 G).
   { split; [|split; [|split]]; simpl; auto using ext_refl. apply ofix_cgrow; auto. }
   assert (Hfu : fu_good fu).
@@ -1538,9 +1542,9 @@ Proof.
   { simpl. destruct Hc3. unfold func_of_comp. econstructor; eauto. rewrite Nat2N.id. auto.
     eapply jinv_final_strict; eauto. eapply jinv_final_handlers; eauto. apply (j_jf _ _ _ _ _ Hj3). exists (fst G2 ++ r0). first [rewrite Hr0, app_assoc | rewrite app_assoc]; reflexivity.
     apply (j_consts _ _ _ _ _ Hj3). }
-  assert (Hf4 : holds (FPure (fu_good fu /\ jgood_func (fst fu) /\ Pu (snd fu)) :: fs) s4 G).
-  { constructor. simpl. auto. eapply holds_le; eauto. left. simpl. apply Hxe. }
-  assert (Hj4 : jinv n X (FPure (fu_good fu /\ jgood_func (fst fu) /\ Pu (snd fu)) :: fs) (s_cur s4) (fst G)).
+  assert (Hf4 : holds (FPure (fu_good fu /\ jgood_func (fst fu) /\ Pu (snd fu)) :: FDesc (snd fu) :: fs) s4 G).
+  { constructor. simpl. auto. constructor. simpl. exact Hu3a. eapply holds_le; eauto. left. simpl. apply Hxe. }
+  assert (Hj4 : jinv n X (FPure (fu_good fu /\ jgood_func (fst fu) /\ Pu (snd fu)) :: FDesc (snd fu) :: fs) (s_cur s4) (fst G)).
   { destruct Hxe as (_ & Hk & Hbk & _ & Hl & _). cbn [s_cur s4].
     apply jinv_same with (c := s_cur s); auto.
     eapply jinv_weaken; [reflexivity| |exact Hj]. simpl. apply incl_refl. }
@@ -1558,9 +1562,10 @@ Qed.
 Definition fu_jgood (fu : func * list (N * bool)) : Prop := fu_good fu /\ jgood_func (fst fu).
 
 Lemma TJ_emit_closure n X fs fu l :
-  In (FPure (fu_jgood fu)) fs -> TJ n X fs (emit_closure fu l) (fun _ => fs) (fun _ => X) n.
+  In (FPure (fu_jgood fu)) fs -> In (FDesc (snd fu)) fs -> TJ n X fs (emit_closure fu l) (fun _ => fs) (fun _ => X) n.
 Proof.
-  intros Hin s G a s' Hs Hf Hj H.
+  intros Hin Hind s G a s' Hs Hf Hj H.
+  pose proof (holds_in _ _ _ _ Hf Hind) as Hdesc. simpl in Hdesc.
   pose proof (holds_in _ _ _ _ Hf Hin) as Hg. simpl in Hg. destruct Hg as [[Hg Hu] Hjg].
   unfold emit_closure in H. unfold cbind at 1 in H.
   destruct (make_constant (KFun (fst fu)) s) as [[c s1]|] eqn:E; [|discriminate].
@@ -1573,7 +1578,7 @@ Proof.
   match goal with |- context [pushb ?s1 ?bs ?l] =>
     destruct (push_ok fs s1 G (OpClosure, [(c mod 256)%N; (c / 256)%N] ++ uvb (snd fu)) l A1 A3) as (B1 & B2 & B3) end.
   { unfold iok. simpl. eexists _, _, (fst fu), _. split; [reflexivity|]. rewrite u16_split. split; auto.
-    rewrite uvb_length, Hu, Nat2N.id. reflexivity. }
+    split. rewrite uvb_length, Hu, Nat2N.id. reflexivity. apply dok_uvb. exact Hdesc. }
   eexists. split; [exact B1|]. split; [eapply le_trans; [exact A2|exact B2]|]. split; [exact B3|].
   cbn [fst]. apply jinv_pushb. apply jinv_push; try discriminate; auto.
   apply jinv_consts with (c := s_cur s) (more := more); try reflexivity; [|exact Hj].
@@ -1671,11 +1676,15 @@ Proof.
   eapply TJ_post. apply IHps. intros u4. apply incl_tl, incl_refl.
 Qed.
 
+Lemma TJ_assume {A} (P : Prop) n X fs (m : C A) Q X1 n1 :
+  (P -> TJ n X (FPure P :: fs) m Q X1 n1) -> TJ n X (FPure P :: fs) m Q X1 n1.
+Proof. intros HX s G a s' Hs Hf Hj H. inversion Hf; subst. simpl in *. eapply HX; eauto. Qed.
+
 Lemma TJ_closure_tail n X fs fu l (Pu : Prop) :
-  TJ n X (FPure (fu_good fu /\ jgood_func (fst fu) /\ Pu) :: fs) (emit_closure fu l) (fun _ => fs) (fun _ => X) n.
+  TJ n X (FPure (fu_good fu /\ jgood_func (fst fu) /\ Pu) :: FDesc (snd fu) :: fs) (emit_closure fu l) (fun _ => fs) (fun _ => X) n.
 Proof.
   eapply TJ_pure_impl with (Y := fu_jgood fu). unfold fu_jgood; tauto.
-  eapply TJ_post. apply TJ_emit_closure. simpl; auto. intros u. apply incl_tl, incl_refl.
+  eapply TJ_post. apply TJ_emit_closure; simpl; auto. intros u. apply incl_tl, incl_tl, incl_refl.
 Qed.
 
 Lemma TJ_with_function n X fs k nm ps lb body le :
@@ -1710,12 +1719,11 @@ Proof.
     + eapply TJ_bind. apply (TJ_quiet false); auto using qj_begin_scope. intros u1. apply TJ_emit_op8; reflexivity.
     + intros s a s' Hu H. unfold cbind at 1 2 in H. unfold begin_scope, upd in H. rewrite emit_op8_push in H.
       apply emit_return_upv in H. rewrite H. cbn. exact Hu.
-    + intros fu. eapply TJ_pure_impl with (Y := fu_jgood (fst fu, [])).
-      { intros [[H1 H2] [H3 H4]]. rewrite H4 in H2. split; auto. split; auto. }
-      eapply TJ_ext with (m := emit_closure (fst fu, []) l ;;; emit_op16 OpStaticMethod nc l).
-      * eapply TJ_bind. apply TJ_emit_closure. simpl; auto. intros u2.
+    + intros fu. apply TJ_assume. intros (_ & _ & H4). destruct fu as [f0 us]. simpl in H4. subst us.
+      eapply TJ_ext with (m := emit_closure (f0, []) l ;;; emit_op16 OpStaticMethod nc l).
+      * eapply TJ_bind. apply TJ_closure_tail. intros u2.
         eapply TJ_post. apply TJ_emit_op16; try reflexivity; try discriminate. simpl; auto.
-        intros u3. apply incl_tl, incl_tl, incl_refl.
+        intros u3. apply incl_tl, incl_refl.
       * intros s. unfold emit_closure, cbind. simpl.
         destruct (make_constant _ s) as [[c s2]|]; auto.
   - intros s. unfold in_function. unfold cbind.
